@@ -431,7 +431,17 @@ func (e *Eng) eval(st *State, x ast.Expr) *Val {
 				return e.allocStruct(st, cl)
 			}
 			e.gap("address-of %s abstracted", e.src(x.X))
-			return e.freshNonNil("addr", t)
+			pv := e.freshNonNil("addr", t)
+			if pt, ok := t.Underlying().(*types.Pointer); ok {
+				if _, basic := pt.Elem().Underlying().(*types.Basic); basic {
+					// remembered for contracts only (`deref(res0) == f.description` on `return &f.description`): what the
+					// pointer points at, at the moment the address is taken
+					if cur := e.eval(st, x.X); cur != nil && cur.Sort != "" && len(cur.Elems) == 0 {
+						pv.Pointee = cur
+					}
+				}
+			}
+			return pv
 		}
 		e.gap("unary %s", x.Op)
 		return e.freshVal("un", t)
